@@ -148,6 +148,26 @@ def run(ctx, ck):
         run_cache_rule(ctx, ck, only=ckeys)
         stale = any(not o.ok for o in ck.obs[n0:] if o.rule == 'R-CACHE.invalidate')
     ck.info('current_report_caches', sorted(ckeys))
+    # the printed currents are the solved currents, whatever their size: nothing in the closure of the current table
+    # compares a value with an absolute tolerance or rounds it (np.isclose(c, 0) has atol = 1e-8: junction currents of
+    # a weakly driven antenna are printed as 0 while the pulse rows still show them)
+    ck.rule('R-LIT.no-absolute-threshold', 'the current table applies no absolute tolerance / rounding to the currents')
+    TOL = ('isclose', 'allclose', 'round', 'around', 'round_', 'clip', 'nan_to_num')
+    hits = []
+    for q_ in sorted(cclosure):
+        g_ = m.funcs[q_]
+        if g_.module.name == 'util':
+            continue        # (the number formatter: its rounding is the print precision, decided by C19)
+        for c_ in ast.walk(g_.node):
+            if isinstance(c_, ast.Call) and (dotted(c_.func) or '').split('.')[-1] in TOL:
+                hits.append((g_, c_))
+    for g_, c_ in hits:
+        ck.ob('R-LIT.no-absolute-threshold', '%s|%s' % (g_.qual, norm(c_)[:50]), False, g_.loc(c_),
+              '%s in %s, reached from the current table: currents below the absolute tolerance are reported as something '
+              'else than what the pulses carry' % (norm(c_)[:50], g_.qual))
+    ck.ob('R-LIT.no-absolute-threshold', CUR + '|closure', not hits, cur_f.loc(),
+          'closure of the current table (%d functions) applies no tolerance to the currents' % len(cclosure))
+    stale = stale or bool(hits)
     try:
         f, paths, found = check_junction_accumulate(ctx, ck)
     except AnalysisError as e_:
@@ -155,7 +175,7 @@ def run(ctx, ck):
             raise
         # the junction rows are read through the very cache reported above: that report stands, the rows behind
         # the cache are not analysed further
-        ck.note('junction rows not analysed behind the stale cache: %s' % e_)
+        ck.note('junction rows not analysed behind the construct reported above: %s' % e_)
         return
     ck.floor('paths reporting one object', len(paths), 9)
     # the end rows on every path are the ones the end conditions call for:
